@@ -207,6 +207,21 @@ def run(rep, tier):
             segm = detect_sources(img, r.choice([1.0, 2.0, 4.0]), npixels=npix, connectivity=conn)
         if segm is None:
             continue
+        if k % 8 == 5:
+            # hand-drawn segments: rectangles that fill their bounding boxes (every pixel of the box belongs to the parent), with a background
+            # frame or - every other time - tiling the whole image so that no background pixel is left
+            from photutils.segmentation import SegmentationImage
+            ny_, nx_ = img.shape
+            yy_, xx_ = np.mgrid[0:ny_, 0:nx_]
+            img = np.zeros(img.shape) + 2.0
+            for (cx_, cy_) in [(nx_ * 0.18, ny_ * 0.3), (nx_ * 0.36, ny_ * 0.7), (nx_ * 0.68, ny_ * 0.35), (nx_ * 0.85, ny_ * 0.65)]:
+                img += r.uniform(40, 90) * np.exp(-0.5 * (((xx_ - cx_) / 1.6) ** 2 + ((yy_ - cy_) / 1.6) ** 2))
+            img = np.round(img * 16) / 16
+            seg_ = np.zeros(img.shape, int)
+            m_ = 0 if (k // 8) % 2 else 2
+            seg_[m_:ny_ - m_, m_:nx_ // 2] = 1
+            seg_[m_:ny_ - m_, nx_ // 2:nx_ - m_] = 2
+            segm = SegmentationImage(seg_)
         if r.random() < 0.3 and segm.nlabels > 1:      # label gaps
             segm.remove_label(int(r.choice(list(segm.labels))))
         elif r.random() < 0.35 and segm.nlabels > 1:
